@@ -83,6 +83,7 @@ package env
 
 //@ func (*Env).DefineValue
 //@ props C12 C04
+//@ traced_optin symbol -> result; value; e
 //@ requires e != nil
 //@ requires [C13] unlocked: nolocks()
 //@ modifies e.values, mapof(e.values)
@@ -122,6 +123,7 @@ package env
 
 //@ func (*Env).SetValue
 //@ props C12 C04
+//@ traced_optin symbol -> result; value; e
 //@ requires e != nil
 //@ requires [C13] unlocked: nolocks()
 //@ modifies heap("MV:Int:Int"), heap("MP:Int")
